@@ -127,13 +127,20 @@ def budget_for(size, w, limit):
     return 2000 * (size + len(w) + limit) ** 2
 
 
-def sim(rec, fn, name, obj, w, size, limit):
+def sim(rec, fn, name, obj, w, size, limit, exploding=False):
     _CUR['cycle'] = False
+    _CUR['exploding'] = exploding
     _LM.begin(budget_for(size, w, limit))
     o = call(fn, obj, w)
     steps = _LM.end()
     rec.counters['lines_executed'] += steps
     rec.ev(name)
+    if o.kind == 'budget' and not _CUR.get('cycle') and _CUR.get('exploding'):
+        # a PDA whose epsilon moves push in several ways: the search for an epsilon path is exponential in the depth of the target
+        # (millions of lines, still finite); a line budget cannot tell that from non-termination - only the backpointer-cycle
+        # probe can, and it did not fire
+        rec.inconc('line budget exceeded on a PDA with an exploding epsilon closure (no cycle proof): not decided')
+        return None
     if o.kind == 'budget':
         key = 'no_answer:backpointer_cycle@%s' % name if _CUR.get('cycle') else 'no_answer:step_budget@%s' % name
         rec.violation(key, '%s does not terminate: %s' % (name, o.exc), word=w)
@@ -238,6 +245,7 @@ def check_case(rec, case):
         # every epsilon closure the library computes for a word of at most n letters is a subset of the configurations reachable
         # with at most n letters: if there are fewer of those than the limit, no closure can be cut off
         closures_small = reachable_configurations(R, n, case['limit']) < case['limit']
+        exploding = not all(pd.true_eps_closure(R, [(q, ())], 60)[1] for q in R[0])
         old = GambaTools.pda_epsilon_closure_max_iterations
         try:
             GambaTools.pda_epsilon_closure_max_iterations = case['limit']
@@ -246,7 +254,7 @@ def check_case(rec, case):
                 if not oa.ok:
                     rec.inconc('pda_accepts_word failed (judged under C09)')
                     break
-                o = sim(rec, pa.pda_simulate_word, 'pda_simulate_word', P, w, size, case['limit'])
+                o = sim(rec, pa.pda_simulate_word, 'pda_simulate_word', P, w, size, case['limit'], exploding=exploding)
                 if o is None:
                     break
                 if oa.value or (w in exact and closures_small):
